@@ -151,7 +151,7 @@ def gen_cases(ctx):
         base = c05.decorate(rng, n, pairs, engine=rng.choice(["duckdb", "sqlite"]), entry="fn", order=order, probs=probs or rng.choice(["grid", "rand", "grid"]), thr=None, tag=tag)
         weights = rng.random() < 0.25
         if weights:
-            ts = sorted({round(rng.uniform(-6, 6), 2) for _ in range(rng.randint(1, 6))})
+            ts = sorted({round(rng.uniform(-6, 6), 2) for _ in range(rng.randint(1, 6))} | ({rng.choice([0, 0.0, -0.0])} if rng.random() < 0.35 else set()))
             rng.shuffle(ts)
         else:
             ts = gen_thresholds(rng, base["edges"])
@@ -260,7 +260,13 @@ def run(ctx: core.Ctx):
         "thresholds pairwise distinct after 6-decimal formatting (column names), edge endpoints are nodes, ids distinct and non-NULL",
         "weight thresholds whose probability lies within 1e-12 of an edge probability are excluded (floating point)",
     ]
+    from harness.translate import tarith
+
+    errs = tarith.write({"threshold_args_to_match_prob_list", "bayes_factor_to_prob", "match_weight_to_bayes_factor"})  # Generated/Arith.lean: the model's threshold list is the translated threshold_args_to_match_prob_list
     ctx.lean = core.lean_check(PROP, ctx.thorough)
+    if errs:
+        ctx.lean.ok = False
+        ctx.lean.problems += ["T-arith: " + e for e in errs]
     drv = core.Driver()
     if ctx.replay:
         import json
